@@ -73,10 +73,28 @@ example : Css.declSafeWith [102, 111, 110, 116, 45, 102, 97, 109, 105, 108, 121]
 /-- T1, transcription pins: the control structure and calls (extract/skeleton.go) of the functions whose models
     were written by hand are the ones the models were transcribed from:
       runtime.go SanitizeCSS
+      safehtml/style.go SanitizeCSS
+      safehtml/style.go SanitizeCSSProperty
+      safehtml/style.go SanitizeCSSValue
+      safehtml/style.go sanitizeBackgroundImage
+      safehtml/style.go sanitizeEnum
+      safehtml/style.go sanitizeFontFamily
+      safehtml/style.go sanitizeRegular
+      safehtml/style.go urlIsSafe
+      runtime/styleattribute.go sanitizeStyleAttributeValue
     A change of what one of them calls or how it branches breaks this theorem; the check then searches for a
     failing input and reports either that or `no-failing-input-found`. -/
 theorem C05_transcription_pinned :
-    Generated.skel_runtime_SanitizeCSS = 9378241437246278277 := by decide
+    Generated.skel_runtime_SanitizeCSS = 9378241437246278277 ∧
+    Generated.skel_safehtml_SanitizeCSS = 11362632238448651570 ∧
+    Generated.skel_safehtml_SanitizeCSSProperty = 11265045131699987055 ∧
+    Generated.skel_safehtml_SanitizeCSSValue = 13238686208247262430 ∧
+    Generated.skel_safehtml_sanitizeBackgroundImage = 2388487536827179375 ∧
+    Generated.skel_safehtml_sanitizeEnum = 10764163270014942412 ∧
+    Generated.skel_safehtml_sanitizeFontFamily = 6454337714094907083 ∧
+    Generated.skel_safehtml_sanitizeRegular = 7521923537659166537 ∧
+    Generated.skel_safehtml_urlIsSafe = 13914283418647389984 ∧
+    Generated.skel_styleattr_sanitizeStyleAttributeValue = 8475373072579502467 := by decide
 -- END transcription pins
 
 end TemplVerif.Props.C05
